@@ -16,7 +16,8 @@ class SemiWrapper(KDWrapper):
         return self.dataset.getitem_class(idx, ctx=ctx)
 
     def getall_class(self):
-        cls = self.dataset.getall_class()
+        # copy to avoid altering the labels of the wrapped dataset
+        cls = list(self.dataset.getall_class())
         for idx in self.semi_idxs:
             cls[idx] = -1
         return cls
